@@ -5,9 +5,6 @@ static void *root(void *a) { (void)a; return 0; }
 #ifndef HAVE_C06
 const harness_t h_c06 = { "C06", g, 0, root, 0 };
 #endif
-#ifndef HAVE_C11
-const harness_t h_c11 = { "C11", g, 0, root, 0 };
-#endif
 #ifndef HAVE_C16
 const harness_t h_c16 = { "C16", g, 0, root, 0 };
 #endif
